@@ -1,8 +1,87 @@
-(* placeholder until the proofs land: the model computes *)
-From UV Require Import Lib.Base Model.CloseProto.
-Example C02_placeholder_model_runs :
-  ctrace [OInit TStream; OSubmit 0 1 1; OClose 0; OPhase] (fun _ => []) =
-  [EIn (OInit TStream); EIn (OSubmit 0 1 1); EIn (OClose 0); EIn OPhase;
-   EReqCb 1 UV_ECANCELED true; ECloseCb 0].
-Proof. vm_compute. reflexivity. Qed.
-Print Assumptions C02_placeholder_model_runs.
+(* C02 close protocol, part 1: the loop-core model (Model/LoopCore.v: timer,
+   idle, prepare, check, async handles; every script, every callback
+   behaviour, every run mode, metrics on/off).  Statements only; proofs in
+   Proofs/CloseProofs.v.  Part 2 (handle types with requests in flight):
+   Properties_C02_proto.v. *)
+From UV Require Import Lib.Base Model.Heap Model.Timer Model.LoopCore Proofs.LoopCoreInv Proofs.CloseProofs.
+Local Open Scope Z_scope.
+
+(* uv_close() emits no event at all, so in particular no callback; nor does
+   any other API call (also when made from inside a callback) *)
+Theorem C02_close_not_reentrant :
+  forall s i, snd (lapi s (LClose i)) = [].
+Proof. exact close_not_reentrant. Qed.
+Print Assumptions C02_close_not_reentrant.
+
+Theorem C02_api_not_reentrant :
+  forall s o, forallb (fun e => negb (is_cb e)) (snd (lapi s o)) = true.
+Proof. exact api_not_reentrant. Qed.
+Print Assumptions C02_api_not_reentrant.
+
+(* at most one close callback per handle in any trace ... *)
+Theorem C02_close_cb_at_most_once :
+  forall t0 m os beh pre i nw post nw',
+    ltrace t0 m os beh = pre ++ VCb 6 i nw :: post ->
+    ~ In (VCb 6 i nw') pre /\ ~ In (VCb 6 i nw') post.
+Proof. exact close_cb_at_most_once. Qed.
+Print Assumptions C02_close_cb_at_most_once.
+
+(* ... and if the final uv_run returned 0, every handle on which uv_close was
+   called (UV_HANDLE_CLOSING set: C02_close_sets_closing) has had it *)
+Theorem C02_close_cb_exactly_once :
+  forall t0 m os md beh pre i,
+    let s' := lfinal t0 m (os ++ [LRun md]) beh in
+    ltrace t0 m (os ++ [LRun md]) beh = pre ++ [VRun false] ->
+    (i < length (hs s'))%nat -> h_closing (hget s' i) = true ->
+    exists nw, In (VCb 6 i nw) (ltrace t0 m (os ++ [LRun md]) beh).
+Proof. exact close_cb_eventually. Qed.
+Print Assumptions C02_close_cb_exactly_once.
+
+Theorem C02_close_sets_closing :
+  forall s p w i, LInvG s p w -> usable s i = true ->
+    h_closing (hget (fst (lapi s (LClose i))) i) = true.
+Proof. exact close_sets_closing. Qed.
+Print Assumptions C02_close_sets_closing.
+
+Theorem C02_close_cb_iff_closed :
+  forall t0 m os beh i,
+    (exists nw, In (VCb 6 i nw) (ltrace t0 m os beh)) <->
+    ((i < length (hs (lfinal t0 m os beh)))%nat /\ h_closed (hget (lfinal t0 m os beh) i) = true).
+Proof. exact close_cb_iff_closed. Qed.
+Print Assumptions C02_close_cb_iff_closed.
+
+(* after the close callback of handle i: no timer / idle / prepare / check /
+   async callback for i and no second close callback (tag 5 = after_work
+   carries a request id, not a handle) *)
+Theorem C02_nothing_after_close_cb :
+  forall t0 m os beh pre i nw post tag nw',
+    ltrace t0 m os beh = pre ++ VCb 6 i nw :: post -> tag <> 5%nat -> ~ In (VCb tag i nw') post.
+Proof. exact nothing_after_close_cb. Qed.
+Print Assumptions C02_nothing_after_close_cb.
+
+(* close callbacks come out of uv__run_closing_handles only: API calls, the
+   idle/prepare/check phases, the poll phase and the timer pass emit none *)
+Theorem C02_close_cb_in_closing_phase_only :
+  forall s beh,
+    (forall o, no_close (snd (lapi s o))) /\
+    (forall k tag, tag <> 6%nat -> no_close (snd (run_watchers s beh k tag))) /\
+    (forall timeout, no_close (snd (io_poll s beh timeout))) /\
+    no_close (snd (l_run_timers s beh)).
+Proof. exact close_cb_in_closing_phase_only. Qed.
+Print Assumptions C02_close_cb_in_closing_phase_only.
+
+(* the invariant the theorems run on holds in every reachable state *)
+Theorem C02_queue_invariant :
+  forall t0 m os beh,
+    Good (lfinal t0 m os beh) [] [] /\ TrOK (linit t0 m) (ltrace t0 m os beh) (lfinal t0 m os beh).
+Proof. exact ltrace_ok. Qed.
+Print Assumptions C02_queue_invariant.
+
+Example C02_example_all_kinds_closed_in_and_out_of_callbacks :
+  let os := [LInit KTimer true; LInit KIdle true; LInit KAsync true; LInit KCheck true; LInit KPrepare true;
+             LTStart 0 (Some 1%nat) 0 0; LStart 1 true; LStart 3 true; LStart 4 true; LSend 2;
+             LClose 4; LRun 0] in
+  let beh := fun k => match k with O => [LClose 1] | 1%nat => [LClose 0; LClose 2] | 2%nat => [LClose 3] | _ => [] end in
+  exists pre, ltrace 0 false os beh = pre ++ [VRun false] /\
+  forall i, (i < 5)%nat -> exists nw, In (VCb 6 i nw) (ltrace 0 false os beh).
+Proof. exact loopcore_example. Qed.
